@@ -86,8 +86,10 @@ func (p *Pkg) sig0(fi *funcInfo) {
 	if fd.Recv != nil {
 		fl := fd.Recv.List[0]
 		t := p.mustType(fl.Type)
+		isPtr := false
 		if t.K == "optstruct" {
 			t = &Ty{K: "struct", Name: t.Name}
+			isPtr = true
 		}
 		if t.K != "struct" {
 			bad(fd, "receiver of type %s", src(fl.Type))
@@ -97,7 +99,9 @@ func (p *Pkg) sig0(fi *funcInfo) {
 		if len(fl.Names) == 1 {
 			fi.recv = fl.Names[0].Name
 		}
-		fi.ptrParam[fi.recv] = true
+		if isPtr { // a value receiver is a copy: assignments through it stay local
+			fi.ptrParam[fi.recv] = true
+		}
 	}
 	fi.params = []string{}
 	for _, fl := range fd.Type.Params.List {
